@@ -200,8 +200,9 @@ def known_text(check, name, w):
 
 
 def smallest_positive(T):
+    """Smallest positive NORMAL value of T (the property is stated for finite normal numbers)."""
     p, emin, emax = MANT[T]
-    return Fraction(2) ** (emin - p + 1)
+    return Fraction(2) ** emin
 
 
 def spec_eval(T, xv):
